@@ -32,7 +32,8 @@ def lines_of(scripts, op_lines_by_sid, with_store):
             view = {k: ov[k] for k in ("phase", "shut", "cfg", "pipes", "jobs", "open", "store", "logs")}
             view["withStore"] = with_store
             out.append({"k": "op", "sid": n, "op": m["op"], "p": m["p"], "j": m["j"], "t": m["t"], "o": m["o"], "v": m["v"], "bad": m["bad"],
-                        "skip": ov["skip"], "dbg": False, "res": ov["res"], "err": ov["err"], "new": ov["new"], "view": view})
+                        "skip": ov["skip"], "dbg": False, "res": ov["res"], "err": ov["err"], "new": ov["new"],
+                        "via": ov.get("via", ""), "http": ov.get("http", 0), "view": view})
     return out, names
 
 
